@@ -179,7 +179,9 @@ class C03(F.PropCheck):
             exe, log = F.build_c('c03_' + cfg, os.path.join(F.VERIF, 'harness', 'drv', 'c03.c'), config=cfg,
                                  wrap=('srpc', 'proto'), exclude=('devconn',),
                                  extra_srcs=[os.path.join(F.VERIF, 'harness', 'wrap', 'c03_devconn_wrap.c')],
-                                 libs=['-Wl,--wrap=srpc_getdata'])
+                                 libs=['-Wl,--wrap=srpc_getdata'],
+                                 # out-of-range double->unsigned conversions (full_time *= 1.1 on a huge time) are not a memory error
+                                 extra_flags=['-fno-sanitize=float-cast-overflow'])
             if exe is None: return None, log
             exes[cfg] = exe
         txt = ROUTER % (exes['dev'], exes['devcfg'])
